@@ -13,29 +13,35 @@
 (* Init enumerates the union of the parts without building it as one set.   *)
 (***************************************************************************)
 EXTENDS JoinCases, Json
-CONSTANTS NLongU, NLongS, NLong2
+CONSTANTS NLongU, NLongS, NLong2, Part
 
 Short(l, r, n) == Len(l) < n \/ Len(r) < n
 Longest(S, n) == {s \in S : Len(s) = n}
-Draws(c, LS, RS, k) == IF k <= 0 THEN {} ELSE LET ls == LS  rs == RS IN {Case(c, RandomElement(ls), RandomElement(rs)) : d \in 1..k}
-
 \* (zero-arity definitions: TLC evaluates each of these sets once)
 LongLL1 == Longest(LL1, MaxLen)
 LongRL1 == Longest(RL1, MaxLen)
 LongSortedLL1 == Longest(Lefts1(MainCfgS), MaxLen)
 LongSortedRL1 == Longest(Rights1(MainCfgS), MaxLen)
-LongU == Draws(MainCfgU, LongLL1, LongRL1, NLongU)
-LongS == Draws(MainCfgS, LongSortedLL1, LongSortedRL1, NLongS)
-Long2 == UNION {Draws(c, Longest(Lefts2(c), MaxLen2), Longest(Rights2(c), MaxLen2), NLong2) : c \in Configs2}
-Sampled == UNION {Draws(c, Lefts1(c), Rights1(c), PerCfg) : c \in RandomSubset(NCfg, Configs1)}
+SampledConfigs == RandomSubset(NCfg, Configs1)
 
 VARIABLE x
-Init == \/ \E l \in LL1, r \in RL1 : (NLongU = 0 \/ Short(l, r, MaxLen)) /\ x = Case(MainCfgU, l, r)
-        \/ \E l \in Lefts1(MainCfgS), r \in Rights1(MainCfgS) :
-              (NLongS = 0 \/ Short(l, r, MaxLen)) /\ x = Case(MainCfgS, l, r)
-        \/ \E c \in Configs2 : \E l \in Lefts2(c), r \in Rights2(c) :
-              (NLong2 = 0 \/ Short(l, r, MaxLen2)) /\ x = Case(c, l, r)
-        \/ x \in LongU \cup LongS \cup Long2 \cup Sampled
+\* a draw: RandomElement is evaluated anew for every d
+Draw(c, LS, RS, k) == \E d \in 1..k : x = Case(c, RandomElement(LS), RandomElement(RS))
+\* Part = 0: everything; 1..5: one part (so that several TLC processes can share a large generation)
+On(p) == Part = 0 \/ Part = p
+PartU == \E l \in LL1, r \in RL1 : (NLongU = 0 \/ Short(l, r, MaxLen)) /\ x = Case(MainCfgU, l, r)
+PartLongU == Draw(MainCfgU, LongLL1, LongRL1, NLongU)
+PartS == \E l \in Lefts1(MainCfgS), r \in Rights1(MainCfgS) :
+            (NLongS = 0 \/ Short(l, r, MaxLen)) /\ x = Case(MainCfgS, l, r)
+PartLongS == Draw(MainCfgS, LongSortedLL1, LongSortedRL1, NLongS)
+Part2(c) == \E l \in Lefts2(c), r \in Rights2(c) : (NLong2 = 0 \/ Short(l, r, MaxLen2)) /\ x = Case(c, l, r)
+PartLong2(c) == Draw(c, Longest(Lefts2(c), MaxLen2), Longest(Rights2(c), MaxLen2), NLong2)
+PartSampled == \E c \in SampledConfigs : Draw(c, Lefts1(c), Rights1(c), PerCfg)
+Init == \/ (On(1) /\ PartU)
+        \/ (On(2) /\ PartLongU)
+        \/ (On(3) /\ (PartS \/ PartLongS))
+        \/ (On(4) /\ \E c \in Configs2 : (Part2(c) \/ PartLong2(c)))
+        \/ (On(5) /\ PartSampled)
 Next == UNCHANGED x
 Emit == PrintT(ToJson(x))
 =============================================================================
